@@ -14,7 +14,7 @@ DESCRIPTION = {
              "0..2^53 (or bool), a URI slot value that is not a str fully matching the WAMP loose grammar for that slot, or a wrongly typed value "
              "in a known option at the Options/Details position (whether the parsed message retains it or silently drops it; enc_* options are judged only in payload form, where they are read); re-marshalling an accepted message gives back the input value at the mutated slot (or omits a defaulted/ignored key) and "
              "parse(marshal(x)) is a fixed point.  Thorough tier adds an atheris (libFuzzer) target: octets -> (serializer, batched) -> unserialize; accepted messages must satisfy the same id/URI strictness and "
-             "re-marshal.  Non-trivial = input differs from a valid message in exactly one slot or bytes decode to a list; "
+             "re-marshal.  Exhaustive per serializer: all 256 octet values substituted for and inserted before every octet of six valid messages, all truncations, containers nested up to 100000 deep.  Non-trivial = input differs from a valid message in exactly one slot or bytes decode to a list; "
              "distinct by (class, slot, junk value, base digest)."),
     "assumptions": [
         "types of args/kwargs contents and unknown option keys are outside the statement (only accept-or-ProtocolError is required there)",
